@@ -5,6 +5,7 @@ import concurrent.futures as cf
 import copy
 import hashlib
 import json
+import re
 import os
 import sys
 import time
@@ -22,7 +23,8 @@ def log(*a):
 
 
 def add_canaries(unit):
-    """every function under contract gets an extra `ensures false`; all of them must fail"""
+    """every function under contract gets an `assert(false)` at the end of its body (before a tail
+    expression); all of them must fail"""
     n = 0
     for mod in unit.mods:
         for sel in mod.items:
@@ -30,13 +32,12 @@ def add_canaries(unit):
                 if callable(fc):
                     def wrap(toks, fn, fc=fc):
                         r = fc(toks, fn)
-                        if not r.external_body:
-                            r.ensures.append(X.Clause('__canary', (), 'false'))
+                        r.canary = True
                         return r
                     sel.fns[name] = wrap
                     n += 1
                 elif not fc.external_body:
-                    fc.ensures.append(X.Clause('__canary', (), 'false'))
+                    fc.canary = True
                     n += 1
     unit.tail = (unit.tail or '') + '\nproof fn prelude_consistent__canary() ensures false {}\n'
     unit.name = unit.name + '_canary'
@@ -70,8 +71,15 @@ def run_unit(name, factory, canaries=True, rlimit=30):
             gc = U.build(cu)
             rc = U.run_verus(gc, rlimit=rlimit)
             cc = U.classify(gc, rc)
-            failed_fns = set(c['fn'] for c in cc['failed_clauses'] if c['id'].endswith('#__canary'))
-            expected = set(m['fn'] for m in gc.marks if m['clause'] == '__canary')
+            klines = {}
+            for n_, line in enumerate(gc.text.split('\n'), 1):
+                for mm in re.finditer(r'/\*@k:([^*]*)\*/', line):
+                    klines[n_] = mm.group(1)
+            failed_fns = set()
+            for d in rc['diagnostics']:
+                if d['line'] in klines and d['message'].startswith('assertion failed'):
+                    failed_fns.add(klines[d['line']])
+            expected = set(klines.values())
             out['canaries_expected'] = len(expected) + 1
             ok_global = any('prelude_consistent__canary' in (c.get('fn') or '') or
                             'prelude_consistent__canary' in c.get('rendered', '')
@@ -81,6 +89,8 @@ def run_unit(name, factory, canaries=True, rlimit=30):
             out['canary_wall_s'] = rc['wall_s']
             if cc['infra']:
                 out['infra'].append('canary run: ' + cc['infra'][0]['message'][:300])
+            elif not expected:
+                out['infra'].append('canary run generated no canaries')
             elif missing:
                 out['infra'].append('VACUITY: `ensures false` verified for %s (contradictory precondition or axiom)' % missing)
             elif not ok_global:
